@@ -209,7 +209,9 @@ def make_state(root=()):
     state = {'w': w, 'done': [], 'fp': None, 'rejected': 0, 'acc': []}
     for name in root:           # non-initial root state (all valid events)
         res = w.apply(EVENTS[name][0])
-        assert res[0] == 'ok', (name, res)
+        if res[0] != 'ok':
+            from ..world import SetupRejected
+            raise SetupRejected(EVENTS[name][0], res)
         state['done'].append(name)
     state['root'] = list(root)
     state['fp'] = fp_hash(observe_in_fork(w)[1])
